@@ -2,4 +2,5 @@ CONSTANTS MaxView = 1 ByzBudget = 3 Blocks <- cBlocks Hdr <- cHdr Dev = {"Standa
 INIT Init
 NEXT Next
 INVARIANTS Agreement
+VIEW View
 CHECK_DEADLOCK FALSE
